@@ -16,16 +16,36 @@
 SMOOTH_BEGIN_NAMESPACE
 
 namespace detail {
+
+/**
+ * @brief Alternating series sum_{k >= 0} (-x2)^k / (2k + N)! for x2 <= 1.
+ *
+ * The closed-form expressions of the tails below suffer from catastrophic cancellation for
+ * small arguments, so the series is used for all x2 <= 1 (12 terms: truncation below 1e-21).
+ */
+template<int N, typename S>
+S taylor_tail(const S & x2)
+{
+  S term = S(1);
+  for (int i = 2; i <= N; ++i) { term /= S(i); }
+  S sum = term;
+  for (int k = 1; k <= 11; ++k) {
+    term *= -x2 / S((2 * k + N - 1) * (2 * k + N));
+    sum += term;
+  }
+  return sum;
+}
+
 template<typename S>
 S cos_2(const S & x2)
 {
   using std::cos, std::sqrt;
 
-  if (x2 > S(eps2)) {
+  if (x2 > S(1)) {
     const S x = sqrt(x2);
     return (cos(x) - S(1)) / x2;
   } else {
-    return -S(1) / S(2) + x2 / S(24) - x2 * x2 / S(720);
+    return -taylor_tail<2>(x2);
   }
 }
 
@@ -34,11 +54,11 @@ S sin_3(const S & x2)
 {
   using std::sin, std::sqrt;
 
-  if (x2 > S(eps2)) {
+  if (x2 > S(1)) {
     const S x = sqrt(x2);
     return (sin(x) - x) / (x2 * x);
   } else {
-    return -S(1) / S(6) + x2 / S(120) - x2 * x2 / S(5040);
+    return -taylor_tail<3>(x2);
   }
 }
 
@@ -47,11 +67,11 @@ S cos_4(const S & x2)
 {
   using std::cos, std::sqrt;
 
-  if (x2 > S(eps2)) {
+  if (x2 > S(1)) {
     const S x = sqrt(x2);
     return (cos(x) - S(1) + x2 / S(2)) / (x2 * x2);
   } else {
-    return S(1) / S(24) - x2 / S(720) + (x2 * x2) / S(40320);
+    return taylor_tail<4>(x2);
   }
 }
 
@@ -60,11 +80,11 @@ S sin_5(const S & x2)
 {
   using std::sin, std::sqrt;
 
-  if (x2 > S(eps2)) {
+  if (x2 > S(1)) {
     const S x = sqrt(x2);
     return (sin(x) - x + x2 * x / 6) / (x2 * x2 * x);
   } else {
-    return S(1) / S(120) - x2 / S(5040) + x2 * x2 / S(362880);
+    return taylor_tail<5>(x2);
   }
 }
 
@@ -74,11 +94,11 @@ S cos_6(const S & x2)
   using std::cos, std::sqrt;
 
   const S x4 = x2 * x2;
-  if (x2 > S(eps2)) {
+  if (x2 > S(1)) {
     const S x = sqrt(x2);
     return (cos(x) - S(1) + x2 / S(2) - x4 / S(24)) / (x4 * x2);
   } else {
-    return -S(1) / S(720) + x2 / S(40320) - x4 / S(3628800);
+    return -taylor_tail<6>(x2);
   }
 }
 
